@@ -253,6 +253,18 @@ func (g *gen) sCall(fc *fctx) []Stmt {
 			hasFn = true
 		}
 	}
+	if g.feat("fieldcall") && !hasFn && g.ch(4) == 0 {
+		// call through a table field (incl. keys that are not identifiers, and the empty string)
+		g.use("fieldcall")
+		tb := g.fresh("fh")
+		key := []string{"f", "", "a b", "m.n", "end", "x1"}[g.ch(6)]
+		names := g.bindResults(fc, f.sig)
+		return []Stmt{
+			&Local{Names: []string{tb}, Exprs: []Expr{TableCons{}}},
+			&Assign{Targets: []Expr{Index{Var{tb}, Str{key}}}, Exprs: []Expr{Var{f.name}}},
+			&Call{Names: names, Fn: Index{Var{tb}, Str{key}}, Args: args},
+		}
+	}
 	switch {
 	case len(f.sig.rets) == 0 || (!hasFn && g.ch(4) == 0):
 		return []Stmt{&Call{Fn: Var{f.name}, Args: args}}
